@@ -288,6 +288,13 @@ impl C06 {
                 structs[d - 1].elems.push(shape_elem(k % 2, *l, *dt, (3000 + 100 * k as i32, 0)));
             }
         }
+        // leaf shapes millions and billions of units away from the struct's origin (rotations must stay exact there)
+        if !large && c.cost(2, "leaf-far-from-origin") == 1 {
+            tags.push("hier:leaf-far-from-origin");
+            for (k, off) in [(6_000_001, -7_000_003), (-48_000_005, 50_000_007), (1_500_000_007, -1_900_000_009), (-2_000_000_011, -13)].iter().enumerate() {
+                structs[d - 1].elems.push(shape_elem([0, 3, 2, 5][k], 9, 40 + k as i16, *off));
+            }
+        }
         // optional label inside the leaf's shape (nets are judged per un-flattened cell)
         if content < 7 && c.cost(2, "leaf-label") == 1 {
             structs[d - 1].elems.push(text(7, "LeafNet", label_points(content)[0]));
@@ -779,7 +786,7 @@ impl CaseDriver for C06 {
     fn describe(&self, tier: Tier) -> Describe {
         let rule = match self.part {
             Part::Hier => format!(
-                "GDS libraries of 1..3 levels (chain top -> ... -> leaf, optionally the top also placing the leaf), structs listed in every order; each reference SREF or AREF x all 8 Manhattan orientations (free); leaf content = one of {KINDS:?} or all seven together (free); costed (deviation bound {}): STRANS spelling (absent / explicit Some(0.0) / present-but-default / the same rotation as a negative angle 90q-360 / beyond one turn 90q+360), offsets {LOCS:?}, array cols x rows in {{1,2,3}}^2, lattice (axis-parallel, rotated with the angle, negative pitch, skewed, columns along y), large arrays 181x181 / 200x200 / 1x32767 / 32767x1 (two-level libraries only), a label inside the leaf shape, a level holding nothing but its reference (no shapes of its own), leaf shapes on (layer, datatype) pairs with data types of 256 / 300 / -1 next to small ones. Non-trivial = has at least one reference.",
+                "GDS libraries of 1..3 levels (chain top -> ... -> leaf, optionally the top also placing the leaf), structs listed in every order; each reference SREF or AREF x all 8 Manhattan orientations (free); leaf content = one of {KINDS:?} or all seven together (free); costed (deviation bound {}): STRANS spelling (absent / explicit Some(0.0) / present-but-default / the same rotation as a negative angle 90q-360 / beyond one turn 90q+360), offsets {LOCS:?}, array cols x rows in {{1,2,3}}^2, lattice (axis-parallel, rotated with the angle, negative pitch, skewed, columns along y), large arrays 181x181 / 200x200 / 1x32767 / 32767x1 (two-level libraries only), a label inside the leaf shape, a level holding nothing but its reference (no shapes of its own), leaf shapes on (layer, datatype) pairs with data types of 256 / 300 / -1 next to small ones, leaf shapes 6e6 .. 2e9 units away from the origin. Non-trivial = has at least one reference.",
                 self.bound(tier)
             ),
             Part::Deep => "4-level chains, structs in every one of the 24 listing orders, every reference SREF or AREF x 8 orientations (free), leaf content CW rectangle or L-polygon; the costed alphabet of [hier] with deviation bound 1.".into(),
@@ -976,7 +983,7 @@ impl CaseDriver for C06 {
                 require_tags(stats, &LATTICE_TAGS)?;
                 require_tags(stats, &BIG_TAGS)?;
                 require_tags(stats, &SPELL_TAGS)?;
-                require_tags(stats, &["levels:1", "levels:2", "levels:3", "hier:leaf-label", "hier:shared-leaf", "hier:wrapper-level", "hier:datatypes-beyond-255"])?;
+                require_tags(stats, &["levels:1", "levels:2", "levels:3", "hier:leaf-label", "hier:shared-leaf", "hier:wrapper-level", "hier:datatypes-beyond-255", "hier:leaf-far-from-origin"])?;
                 require_outcomes(stats, &["ok"])?;
                 let ok = stats.outcomes.get("ok").copied().unwrap_or(0);
                 let err = stats.outcomes.get("err-on-wellformed").copied().unwrap_or(0);
